@@ -313,6 +313,7 @@ def check_r183(fx, rep, cg):
     ctor_names = ("SymbolicValue::<()>::new", "SymbolicValue::<()>::new_from_execution", "SymbolicValue::<()>::new_known_value", "SymbolicValue::<()>::new_synthetic")
     n_sites = 0
     ordinal = {}
+    unlimited_nodes = set()
     for name in sorted(reach):
         b = fx.body(name)
         if not b or "hir" not in b or b.get("from_expansion"):
@@ -359,6 +360,8 @@ def check_r183(fx, rep, cg):
                     how = "every caller wraps the result in a builder-constructed node"
                 elif bad_callers:
                     how = "returned unwrapped to " + ", ".join(sorted(bad_callers))
+            if not ok:
+                unlimited_nodes.add(id(n))
             rep.oblige(
                 ok,
                 "R18.3",
@@ -368,6 +371,55 @@ def check_r183(fx, rep, cg):
                 sample={"rule": "R18.3", "fn": name, "data": str(variant), "limit": T.short(limit), "discharge": how, "at": w},
             )
     rep.extra["constructor_call_sites_on_execution_paths"] = n_sites
+    # unlimited wrappers must not nest: a composite built without the limit stays small only if none of its children can be
+    # another unlimited composite of the same kind. Per (site, child field): the channel is closed when the construction sits in
+    # the else-branch of a *pure* `if let <same variant> { .. } = <that child>.data()` test (no guard, no extra condition).
+    adt = fx.adt(SVD)
+    vfields = {v["name"]: {f["name"]: child_kind(f["ty"]) for f in v["fields"]} for v in adt["variants"]} if adt else {}
+    for name in sorted(reach):
+        b = fx.body(name)
+        if not b or "hir" not in b or b.get("from_expansion") or F.strip_generics(name).startswith("vm::value::SymbolicValue::"):
+            continue
+        for n, ps in F.calls(b["hir"]["value"]):
+            cd = F.callee(n) or ""
+            if not any(cd.endswith(x) for x in ctor_names) or id(n) not in unlimited_nodes:
+                continue
+            allargs = F.call_args(n)
+            short = cd.split("::")[-1]
+            lim = allargs[3] if short == "new" and len(allargs) > 3 else (allargs[2] if short == "new_from_execution" and len(allargs) > 2 else None)
+            limt = T.term(lim, T.Env()) if lim is not None else ("path", "None")
+            if limt[0] == "struct" and str(limt[2]).endswith("Some"):
+                continue
+            data_arg = allargs[1] if len(allargs) > 1 else None
+            if data_arg is None:
+                continue
+            for S, sps in F.walk(data_arg):
+                if S.get("k") != "Struct" or S.get("adt") != SVD or S.get("variant") in ("KnownData", "Value"):
+                    continue
+                for f in S["fields"]:
+                    if not vfields.get(S["variant"], {}).get(f["field"]):
+                        continue
+                    x = F.local_of(F.strip(f["e"]))
+                    closed = False
+                    for anc, key in sps:
+                        if anc.get("k") == "If" and key == "else" and anc["cond"].get("k") == "Let":
+                            c = anc["cond"]
+                            if (F.pat_variants(c["pat"]) or set()) == {(SVD, S["variant"])} and "guard" not in c:
+                                init_l = None
+                                for m, _ in F.walk(c["init"]):
+                                    if m.get("k") == "Path" and m.get("res") == "local":
+                                        init_l = m["local"]
+                                        break
+                                if init_l is not None and init_l == x:
+                                    closed = True
+                    rep.oblige(
+                        closed,
+                        "R18.3",
+                        f"nolimit-nesting:{F.strip_generics(name)}:{S['variant']}.{f['field']}",
+                        F.loc(S["span"]),
+                        f"`{name}` builds `{S['variant']}` without the size limit and nothing keeps its `{f['field']}` child from being another unlimited `{S['variant']}`: such values nest (and share sub-trees), so their tree size grows without any bound the limit could enforce",
+                        sample={"rule": "R18.3", "fn": name, "variant": S["variant"], "child": f["field"], "nesting_closed_by_pure_test": closed},
+                    )
     # the builder passes Some(limit) -------------------------------------------------------
     for b in fx.fn_bodies():
         if b.get("impl_self") == "vm::ValueBuilder" and b.get("name") in ("symbolic", "symbolic_exec", "known", "known_exec"):
